@@ -19,6 +19,9 @@ Require Import Fggs.Proofs.Axis_sem Fggs.Proofs.PTensor_dense.
 Require Import Fggs.Proofs.Einsum_dense Fggs.Proofs.Einsum_support Fggs.Proofs.Einsum_form Fggs.Proofs.Einsum_views Fggs.Proofs.Einsum_reduce.
 Require Import Fggs.Proofs.Einsum_project Fggs.Proofs.Einsum_reindex Fggs.Proofs.Einsum_top.
 Require Import Fggs.Model.Trop Fggs.Model.XVal Fggs.Proofs.Einsum_argmax Fggs.Proofs.Einsum_vit Fggs.Proofs.Einsum_examples Fggs.Proofs.Einsum_oracle Fggs.Proofs.Einsum_orig.
+Require Import Fggs.Proofs.Axis_typed Fggs.Proofs.Axis_total Fggs.Proofs.Einsum_subst.
+Require Import Fggs.Proofs.Einsum_typed_base Fggs.Proofs.Einsum_typed_prep Fggs.Proofs.Einsum_typed_loop Fggs.Proofs.Einsum_typed_cert.
+Require Import Fggs.Proofs.Einsum_typed_main Fggs.Proofs.Einsum_typed_vit Fggs.Proofs.Einsum_typed_ex Fggs.Proofs.Einsum_typed_inst Fggs.Model.EReal.
 Local Open Scope nat_scope.
 
 (** * (a) the dense specification *)
@@ -75,10 +78,15 @@ Proof. exact @dense_support_form. Qed.
 Print Assumptions C07_dense_support_form.
 
 (** * (b) the patterned algorithm *)
-(** Full statement (open in this generality):
+(** Full statement:
       forall typed operands ts, einsum_model ts inputs output = Ok r ->
         denote r = einsum_dense (map dn ts) inputs output.
-    Proved: the same for the operands [er_ts] the algorithm works on (after [default_to(zero)] and
+    It is proved without certificate premises for operands typed in a common context over good
+    index types: [C07_patterned_eq_dense_typed] (at the end of this file), which derives every
+    premise below from typing ([C07_cert_premises_typed]).  The [_partial] theorems that follow
+    remain the statement for everything else (zero-size indices, index types with a sum type of
+    size 1, operands not typed alike), under the decidable premises evaluated per case:
+    the same for the operands [er_ts] the algorithm works on (after [default_to(zero)] and
     [freshen]; [C07_prepared_operands]: these are [ts] themselves when the defaults are zero and
     the physical axes pairwise disjoint), for the result before [__post_init__]
     ([C07_post_init_identity]: which is then the identity), under the decidable premises
@@ -321,3 +329,199 @@ Theorem C07_patterned_eq_dense_given_operands_partial : forall (R : Type) (o : s
   denote R (er_raw r) oidx = einsum_dense o (map (dn (R:=R)) (map st_pt ts0)) inputs output oidx.
 Proof. exact @einsum_correct_original. Qed.
 Print Assumptions C07_patterned_eq_dense_given_operands_partial.
+
+(** * typed operands: no certificate premises *)
+(** Reading guide.  [ty G e ps] (Proofs/Axis_typed.v): axis [e] has the flattened product type [ps]
+    (a list of primes) in the typing context [G : positive -> list ity], which gives every physical
+    axis ONE type; [gprimes ps]: every prime is an atom of size >= 2 or a good sum type (size >= 2,
+    good summands); [ctx_good G]: every type in the context is good; [ctx_below G next]: the axes the
+    context types are below the counter of fresh axes.  [tys G es pss]: pointwise.  One index type
+    [lty l] per einsum index [l]: the axis of every operand at index [l] has type [lty l].
+    [typed_operands lty G next ts inputs] (Proofs/Einsum_typed_main.v) = [ctx_good G], [ctx_below G
+    next] and, for every operand [t] with index list [inp]: [wf (st_pt t)] (the representation
+    invariant), [tys G (vaxes (st_pt t)) (map lty inp)], [st_ok t] (a stride-0 dimension of the
+    physical tensor is ignored; [C07_wire_tensors_ok]).  The operands may have any default and may
+    share physical axes.  [veqb] is the semiring's equality test: sound, and true on (zero, zero).
+    The premise [... = Ok _] says that the model answers (its only other answer on typed operands
+    would be [Fail OutOfFuel]: the fuel is an artefact of the model, the Python code recurses). *)
+
+(** the main theorem: the patterned einsum denotes the dense semiring einsum of the denotations of
+    the given operands at every in-range output index, in every commutative semiring, on every exit
+    (normal; failed unification = all-zero; the zero-size exit is not reachable for good types),
+    [__post_init__] included *)
+Theorem C07_patterned_eq_dense_typed : forall (R : Type) (o : sr_ops R), sr_ring o ->
+  forall veqb : R -> R -> bool, (forall a b, veqb a b = true -> a = b) ->
+  veqb (Semiring.zero o) (Semiring.zero o) = true ->
+  forall lty : nat -> list ity, (forall l, gprimes (lty l)) ->
+  forall (G : ctx) genabled next (ts : list (stensor (R:=R))) inputs output p,
+  ctx_good G -> ctx_below G next ->
+  Forall2 (fun (t : stensor (R:=R)) inp => wf R (st_pt t) /\ tys G (vaxes (st_pt t)) (map lty inp) /\ st_ok t) ts inputs ->
+  einsum_model o veqb genabled next ts inputs output = Ok p ->
+  forall oidx, Forall2 lt oidx (einsum_shape (map (dn (R:=R)) (map st_pt ts)) inputs output) ->
+  denote R p oidx = einsum_dense o (map (dn (R:=R)) (map st_pt ts)) inputs output oidx.
+Proof. exact @einsum_model_typed_explicit. Qed.
+Print Assumptions C07_patterned_eq_dense_typed.
+
+(** the same for the record of the run (the result before [__post_init__]) *)
+Theorem C07_patterned_eq_dense_run_typed : forall (R : Type) (o : sr_ops R), sr_ring o ->
+  forall veqb : R -> R -> bool, (forall a b, veqb a b = true -> a = b) ->
+  veqb (Semiring.zero o) (Semiring.zero o) = true ->
+  forall lty : nat -> list ity, (forall l, gprimes (lty l)) ->
+  forall (G : ctx) genabled next (ts : list (stensor (R:=R))) inputs output r,
+  typed_operands lty G next ts inputs ->
+  einsum_run o veqb genabled next ts inputs output = Ok r ->
+  forall oidx, Forall2 lt oidx (einsum_shape (map (dn (R:=R)) (map st_pt ts)) inputs output) ->
+  denote R (er_raw r) oidx = einsum_dense o (map (dn (R:=R)) (map st_pt ts)) inputs output oidx.
+Proof. exact @einsum_typed_correct. Qed.
+Print Assumptions C07_patterned_eq_dense_run_typed.
+
+(** every premise of the certificate holds for every run on typed operands: [cert_operands]
+    (and [st_ok] of the prepared operands), [cert_subst] (the substitution is functional, acyclic
+    within [cert_fuel], size preserving; from [wts] closed under the bindings of [unify]),
+    [cert_views] (the strides mention only unbound axes of the view, labels and sizes of the
+    equation, the result satisfies the representation invariant), [cert_complete] (the counting
+    criterion, from C06_unify_complete lifted along the loop: every coincidence is an instance of the
+    substitution, and the injectivity of the physical parametrisation); the zero-size exit is not taken *)
+Theorem C07_cert_premises_typed : forall (R : Type) (o : sr_ops R) (veqb : R -> R -> bool),
+  (forall a b, veqb a b = true -> a = b) -> veqb (Semiring.zero o) (Semiring.zero o) = true ->
+  forall lty : nat -> list ity, (forall l, gprimes (lty l)) ->
+  forall (G : ctx) genabled next (ts : list (stensor (R:=R))) inputs output r,
+  typed_operands lty G next ts inputs ->
+  einsum_run o veqb genabled next ts inputs output = Ok r ->
+  Forall (st_ok (R:=R)) (er_ts r) /\
+  cert_operands o veqb r inputs output = true /\
+  er_zero_axis r = false /\
+  (er_failed r = false -> cert_subst r = true /\ cert_views r = true) /\
+  cert_complete r inputs = true.
+Proof. exact @einsum_cert_typed. Qed.
+Print Assumptions C07_cert_premises_typed.
+
+(** what replaces [cert_pre]: [default_to(zero)] and [freshen] keep the operands well formed and
+    typed (in an extension of the context) and do not change the dense tensors they denote
+    ([same_dense]: same shape, same denotation inside the shape); the loop invariant [einv] holds at
+    the end of the run (the state of the unifier is well typed: [wts]; completeness: every
+    coincidence extends to an environment satisfying the substitution) *)
+Theorem C07_run_invariant_typed : forall (R : Type) (o : sr_ops R) (veqb : R -> R -> bool),
+  (forall a b, veqb a b = true -> a = b) ->
+  forall lty : nat -> list ity, (forall l, gprimes (lty l)) ->
+  forall (G : ctx) genabled next (ts : list (stensor (R:=R))) inputs output r,
+  typed_operands lty G next ts inputs ->
+  einsum_run o veqb genabled next ts inputs output = Ok r ->
+  exists G' s nx1,
+    einv lty nx1 (Semiring.zero o) G' s (er_ts r) inputs /\
+    er_sigma r = us_subst (ls_u s) /\ er_i2v r = ls_i2v s /\ er_failed r = ls_zero s /\
+    mapM (fun l => match lassoc l (er_i2v r) with
+                   | Some e => clone (sfuel (er_sigma r) [e]) (er_sigma r) e
+                   | None => Fail OtherError end) output = Ok (er_outv r) /\
+    (er_failed r = false -> mapM (project_view (er_sigma r)) (er_ts r) = Ok (er_views r)) /\
+    Forall2 (fun t t' : stensor (R:=R) => same_dense (st_pt t) (st_pt t')) ts (er_ts r).
+Proof. exact @einsum_run_typed. Qed.
+Print Assumptions C07_run_invariant_typed.
+
+(** fuel sufficiency of the certificate's [resolve]: on a well-typed acyclic substitution every
+    physical axis resolves to unbound axes within [cert_fuel] (rank induction: every binding is
+    entered at most once) *)
+Theorem C07_resolve_within_cert_fuel : forall (G : ctx) (s : subst), wts G s ->
+  forall k n, closed s (resolve (cert_fuel s) s (Phys k n)) = true.
+Proof. exact resolve_closed_cert_fuel. Qed.
+Print Assumptions C07_resolve_within_cert_fuel.
+
+(** mv / mm on typed operands: the usual matrix-vector / matrix-matrix product of the denotations *)
+Theorem C07_mv_typed : forall (R : Type) (o : sr_ops R), sr_ring o ->
+  forall veqb : R -> R -> bool, (forall a b, veqb a b = true -> a = b) ->
+  veqb (Semiring.zero o) (Semiring.zero o) = true ->
+  forall lty : nat -> list ity, (forall l, gprimes (lty l)) ->
+  forall (G : ctx) genabled next (a v : stensor (R:=R)) p,
+  typed_operands lty G next [a; v] [[0; 1]; [1]] ->
+  mv_model o veqb genabled next a v = Ok p ->
+  forall i, i < tsizes (lty 0) ->
+  denote R p [i] = sumS o (seq 0 (tsizes (lty 1))) (fun j => mul o (denote R (st_pt a) [i; j]) (denote R (st_pt v) [j])).
+Proof. exact @mv_typed. Qed.
+Print Assumptions C07_mv_typed.
+
+Theorem C07_mm_typed : forall (R : Type) (o : sr_ops R), sr_ring o ->
+  forall veqb : R -> R -> bool, (forall a b, veqb a b = true -> a = b) ->
+  veqb (Semiring.zero o) (Semiring.zero o) = true ->
+  forall lty : nat -> list ity, (forall l, gprimes (lty l)) ->
+  forall (G : ctx) genabled next (a m : stensor (R:=R)) p,
+  typed_operands lty G next [a; m] [[0; 1]; [1; 2]] ->
+  mm_model o veqb genabled next a m = Ok p ->
+  forall i k, i < tsizes (lty 0) -> k < tsizes (lty 2) ->
+  denote R p [i; k] = sumS o (seq 0 (tsizes (lty 1))) (fun j => mul o (denote R (st_pt a) [i; j]) (denote R (st_pt m) [j; k])).
+Proof. exact @mm_typed. Qed.
+Print Assumptions C07_mm_typed.
+
+(** the Viterbi variant on typed operands.  The value is [C07_patterned_eq_dense_run_typed] with
+    [o := trop_ops].  Pointers: [cert_viterbi] holds, and for every in-range output cell with a
+    backing element the pointer tuple is in range (one virtual index per summed-out einsum index,
+    in order of first appearance) and the product of the GIVEN operands' entries at the pointed
+    indices equals the einsum of the given operands at that cell (for a selective addition: the
+    maximum; [C07_trop_selective]).  Cells without backing element: [C07_argmax_zero_cell]. *)
+Theorem C07_argmax_typed : forall (R : Type) (o : sr_ops R), sr_ring o ->
+  forall veqb : R -> R -> bool, (forall a b, veqb a b = true -> a = b) ->
+  veqb (Semiring.zero o) (Semiring.zero o) = true ->
+  forall leb : R -> R -> bool, (forall a b, add o a b = if leb a b then b else a) ->
+  forall lty : nat -> list ity, (forall l, gprimes (lty l)) ->
+  forall (G : ctx) genabled next (ts : list (stensor (R:=R))) inputs output r,
+  typed_operands lty G next ts inputs ->
+  einsum_run o veqb genabled next ts inputs output = Ok r ->
+  er_failed r = false ->
+  forall oidx pi vp,
+  Forall2 lt oidx (einsum_shape (map (dn (R:=R)) (map st_pt ts)) inputs output) ->
+  index_list (er_outv r) [] oidx = IOk pi ->
+  viterbi_ptr_model o leb r output oidx = Ok vp ->
+  In vp (all_assts (map (lval (label_sizes (map fst (map (dn (R:=R)) (map st_pt ts))) inputs)) (summed_labels inputs output))) /\
+  einsum_term o (map (dn (R:=R)) (map st_pt ts)) inputs (combine output oidx ++ combine (summed_labels inputs output) vp)
+  = einsum_dense o (map (dn (R:=R)) (map st_pt ts)) inputs output oidx.
+Proof. exact @viterbi_typed. Qed.
+Print Assumptions C07_argmax_typed.
+
+Theorem C07_cert_viterbi_typed : forall (R : Type) (o : sr_ops R) (veqb : R -> R -> bool),
+  (forall a b, veqb a b = true -> a = b) ->
+  forall lty : nat -> list ity, (forall l, gprimes (lty l)) ->
+  forall (G : ctx) genabled next (ts : list (stensor (R:=R))) inputs output r,
+  typed_operands lty G next ts inputs ->
+  einsum_run o veqb genabled next ts inputs output = Ok r ->
+  cert_viterbi r inputs output = true.
+Proof. exact @viterbi_cert_typed. Qed.
+Print Assumptions C07_cert_viterbi_typed.
+
+(** the hypotheses are satisfiable: a product type (Z(6) against X(2) x Y(3)) and a sum type (the
+    first summand of 2 + 3 against the whole index); the model answers and the result is [true] *)
+Theorem C07_typed_operands_example :
+  typed_operands ex_lty ex_G 10 [ex_a; ex_b] [[0]; [0]] /\
+  exists p, einsum_model bool_ops Bool.eqb false 10 [ex_a; ex_b] [[0]; [0]] [] = Ok p /\ denote bool p [] = true.
+Proof. exact typed_operands_ex. Qed.
+Print Assumptions C07_typed_operands_example.
+
+Theorem C07_typed_operands_sum_example :
+  typed_operands ex_lty2 ex_G2 10 [ex_c; ex_d] [[0]; [0]] /\
+  exists p, einsum_model bool_ops Bool.eqb false 10 [ex_c; ex_d] [[0]; [0]] [] = Ok p /\ denote bool p [] = true.
+Proof. exact typed_operands_sum_ex. Qed.
+Print Assumptions C07_typed_operands_sum_example.
+
+(** the failed-unification exit is reached by typed operands (the two summands of 2 + 3) *)
+Theorem C07_typed_failed_exit_example :
+  typed_operands ex_lty2 ex_G3 10 [ex_c1; ex_e] [[0]; [0]] /\
+  exists r, einsum_run bool_ops Bool.eqb false 10 [ex_c1; ex_e] [[0]; [0]] [] = Ok r /\ er_failed r = true /\
+            denote bool (er_raw r) [] = false.
+Proof. exact typed_operands_failed_ex. Qed.
+Print Assumptions C07_typed_failed_exit_example.
+
+(** the hypotheses about the semiring hold for the exact carriers of the check functions (Real / Log:
+    [ereal]; Viterbi: [trop]; Bool) *)
+Theorem C07_typed_carriers :
+  (sr_ring ereal_ops /\ (forall a b, eeqb a b = true -> a = b) /\ eeqb (Semiring.zero ereal_ops) (Semiring.zero ereal_ops) = true) /\
+  (sr_ring trop_ops /\ (forall a b, teqb a b = true -> a = b) /\ teqb (Semiring.zero trop_ops) (Semiring.zero trop_ops) = true) /\
+  (sr_ring bool_ops /\ (forall a b, Bool.eqb a b = true -> a = b) /\ Bool.eqb (Semiring.zero bool_ops) (Semiring.zero bool_ops) = true).
+Proof. exact typed_carriers. Qed.
+Print Assumptions C07_typed_carriers.
+
+(** ... and those of [C07_argmax_typed] on the first pair (Boolean semiring, selective addition) *)
+Theorem C07_argmax_typed_example :
+  exists r, einsum_run bool_ops Bool.eqb false 10 [ex_a; ex_b] [[0]; [0]] [] = Ok r /\ er_failed r = false /\
+            index_list (er_outv r) [] [] = IOk [] /\
+            viterbi_ptr_model bool_ops (fun x y => implb x y) r [] [] = Ok [1] /\
+            (forall a b, Semiring.add bool_ops a b = if implb a b then b else a).
+Proof. exact viterbi_typed_ex. Qed.
+Print Assumptions C07_argmax_typed_example.
